@@ -119,8 +119,14 @@ func H07a() {
 		f.FileId.Type = FileType(vFileTypes[ti])
 	}
 
+	// the byte order of the re-encoding is the caller's choice (by message
+	// number, so that both orders occur for every field class)
+	var order1, order2 binary.ByteOrder = binary.LittleEndian, binary.BigEndian
+	if (int(gmn)+ti)%2 == 1 {
+		order1, order2 = binary.BigEndian, binary.LittleEndian
+	}
 	var w1 bytes.Buffer
-	err = Encode(&w1, f, binary.LittleEndian)
+	err = Encode(&w1, f, order1)
 	// Known finding: a decoded string that is not valid UTF-8 cannot be
 	// encoded. (The profile's string-array fields live in messages no
 	// container hosts, so the encoder's refusal of them is not reachable.)
@@ -145,7 +151,7 @@ func H07a() {
 	}
 	// second round trip is a fixpoint
 	var w2 bytes.Buffer
-	err = Encode(&w2, g, binary.LittleEndian)
+	err = Encode(&w2, g, order2)
 	vAssert(err == nil, "C07.second-encode")
 	if err != nil {
 		vReached("end")
